@@ -21,7 +21,7 @@ ASSUMPTIONS = [
 ]
 
 L = 120
-SITE = 50            # forward-reference coordinate of the C of CATG (NlaIII) / of the cut base (CHIC)
+SITE = 50            # default forward-reference coordinate of the C of CATG (NlaIII) / of the cut base (CHIC); also 0
 RLEN = 20
 FRAG = 56
 BG = debruijn_like(400, avoid=('CATG', 'ATG', 'CAT'))
@@ -90,7 +90,7 @@ def build_pair(specs, tags_r1):
 
 
 # ---------------------------------------------------------------- NlaIII
-def nla_forward_specs(variant, motif, clip, r2mode):
+def nla_forward_specs(variant, motif, clip, r2mode, SITE=50):
     """Fragment on the forward strand whose restriction site C is at SITE."""
     if variant == 'shift':
         start = SITE + 1                      # first base of the motif was lost
@@ -119,8 +119,11 @@ def nla_cases():
             continue
         if nocig and clip > 0:
             continue
-        yield {'kind': 'nla', 'variant': variant, 'motif': motif, 'clip': clip, 'r2': r2mode, 'allow_cycle_shift': acs,
-               'check_motif': cm, 'invert_strand': inv, 'no_umi_cigar_processing': nocig}
+        for site in (50, 0):       # 0: the motif sits on the very first bases of the contig (its mirror: on the very last)
+            if site == 0 and (inv or nocig or not cm):
+                continue
+            yield {'kind': 'nla', 'variant': variant, 'motif': motif, 'clip': clip, 'r2': r2mode, 'allow_cycle_shift': acs,
+                   'check_motif': cm, 'invert_strand': inv, 'no_umi_cigar_processing': nocig, 'site': site}
 
 
 def nla_expect(case):
@@ -156,7 +159,8 @@ def observe(frag):
 def run_nla(case):
     from singlecellmultiomics.fragment import NlaIIIFragment
     out = []
-    fwd = nla_forward_specs(case['variant'], case['motif'], case['clip'], case['r2'])
+    SITE = case.get('site', 50)
+    fwd = nla_forward_specs(case['variant'], case['motif'], case['clip'], case['r2'], SITE)
     obs = {}
     for strand, specs in (('forward', fwd), ('reverse', tuple(mirror_read(s) for s in fwd))):
         reads = build_pair(specs, {})
@@ -208,7 +212,7 @@ def run_nla(case):
 
 
 # ---------------------------------------------------------------- CHIC
-def chic_forward_specs(trimmed, clip, r2mode):
+def chic_forward_specs(trimmed, clip, r2mode, SITE=50):
     """MNase fragment on the forward strand; the ligated overhang base sits at SITE+1, so the site
     (the base adjacent to it, outside the fragment) is SITE."""
     overhang = SITE + 1
@@ -238,8 +242,11 @@ def chic_cases():
         if nocig and clip > 0:
             continue
         for mx in (('scCHIC384C8U3', 'scCHIC384C8U3l', 'scCHIC384C8U3se') if trimmed else (None, 'CS2C8U6', 'NLAIII384C8U3')):
-            yield {'kind': 'chic', 'trimmed': trimmed, 'MX': mx, 'clip': clip, 'r2': r2mode, 'invert_strand': inv,
-                   'no_umi_cigar_processing': nocig}
+            for site in (50, 0):
+                if site == 0 and (inv or nocig):
+                    continue
+                yield {'kind': 'chic', 'trimmed': trimmed, 'MX': mx, 'clip': clip, 'r2': r2mode, 'invert_strand': inv,
+                       'no_umi_cigar_processing': nocig, 'site': site}
 
 
 def mirror_chic(spec):
@@ -250,7 +257,8 @@ def mirror_chic(spec):
 def run_chic(case):
     from singlecellmultiomics.fragment import CHICFragment
     out = []
-    fwd = chic_forward_specs(case['trimmed'], case['clip'], case['r2'])
+    SITE = case.get('site', 50)
+    fwd = chic_forward_specs(case['trimmed'], case['clip'], case['r2'], SITE)
     obs = {}
     tags = {'lh': 'TA'}
     if case['MX'] is not None:
